@@ -46,6 +46,16 @@ func startChildLimited(race bool, memKiB int) (*host.Child, error) {
 func startEmu(c *host.Child, persist string) (*emu, error) {
 	name, port, err := c.StartEmu(persist)
 	if err != nil {
+		if !c.Alive() {
+			// why the child is gone decides whether this is noise (bind: address already in use) or a finding (a panic)
+			tail := c.StderrHead(200000)
+			if i := strings.LastIndex(tail, "panic:"); i >= 0 {
+				tail = tail[i:]
+			} else if len(tail) > 300 {
+				tail = tail[len(tail)-300:]
+			}
+			return nil, fmt.Errorf("%v: %s", err, strings.ReplaceAll(headLines(tail, 6), "\n", " | "))
+		}
 		return nil, err
 	}
 	return &emu{c, name, port}, nil
